@@ -22,6 +22,9 @@ Model
 * `fsync(fd)`/`fdatasync(fd)` copies volatile -> synced (and ordered).  `rename`/`replace`/`remove`/
   `unlink`/`chmod`/create act on the volatile namespace and are appended to a journal of
   not-yet-durable namespace operations; `fsync` of a directory fd commits that journal.
+* `semantics='windows'` (per file system, default 'posix'): `os.rename` raises FileExistsError when the
+  destination exists, `os.replace` is the atomic overwrite on both.  (Sharing violations of open files are
+  not modelled.)
 * `settle()` = "enough time has passed": everything volatile becomes durable.
 * Every operation is numbered (`opno`), logged, and is a crash point: `arm(k, 'before'|'after')`
   makes operation k raise `SimFSCrash` (a BaseException) before / after its effect.  From then on
@@ -316,11 +319,15 @@ class SimFile:
 
 
 class SimFS:
-    def __init__(self, chunk=4096, bufsize=8192, pid=4242, umask=0o022):
+    def __init__(self, chunk=4096, bufsize=8192, pid=4242, umask=0o022, semantics='posix'):
+        if semantics not in ('posix', 'windows'):
+            raise ValueError(semantics)
         self.chunk = max(1, int(chunk))
         self.bufsize = max(1, int(bufsize))
         self.pid = pid
         self.umask = umask
+        self.semantics = semantics  # 'windows': os.rename refuses an existing destination, os.replace overwrites
+        self.rename_refused = 0     # how often that happened since reset_log()
         self.inodes = {}            # ino -> _Inode
         self.names = {}             # volatile namespace: path -> [ino, mode]
         self.durable_names = {}     # durable namespace
@@ -341,7 +348,7 @@ class SimFS:
     def clone(self):
         if any(not d.closed for d in self.fds.values()):
             raise SimFSError('clone() with open files')
-        c = SimFS(self.chunk, self.bufsize, self.pid, self.umask)
+        c = SimFS(self.chunk, self.bufsize, self.pid, self.umask, self.semantics)
         c.inodes = {i: n.copy() for i, n in self.inodes.items()}
         c.names = {p: list(v) for p, v in self.names.items()}
         c.durable_names = {p: list(v) for p, v in self.durable_names.items()}
@@ -364,6 +371,7 @@ class SimFS:
         self.log = []
         self.written = {}
         self.offered = {}
+        self.rename_refused = 0
 
     def arm(self, k, when):
         assert when in ('before', 'after')
@@ -423,7 +431,7 @@ class SimFS:
 
     def reboot(self, view):
         """A fresh SimFS incarnation over a post-crash image."""
-        n = SimFS(self.chunk, self.bufsize, self.pid, self.umask)
+        n = SimFS(self.chunk, self.bufsize, self.pid, self.umask, self.semantics)
         n.dirs = set(self.dirs)
         for path in sorted(view):
             content, mode = view[path]
@@ -707,9 +715,9 @@ class SimFS:
         self._end(k)
         return r
 
-    def op_rename(self, src, dst):
+    def _move(self, name, src, dst, overwrite):
         src, dst = self._path(src), self._path(dst)
-        k = self._begin('rename', dst)
+        k = self._begin(name, dst)
         ent = self.names.get(src)
         if ent is None:
             raise FileNotFoundError(2, 'No such file or directory', src)
@@ -717,6 +725,12 @@ class SimFS:
             raise IsADirectoryError(21, 'Is a directory', dst)
         if (_os.path.dirname(dst) or '/') not in self.dirs:
             raise FileNotFoundError(2, 'No such file or directory', dst)
+        if not overwrite and src != dst and dst in self.names:
+            # Windows: rename never replaces.  The refused call is still a completed operation, i.e. the
+            # process can die right after it (crash point `after`), before the caller's fallback runs.
+            self.rename_refused += 1
+            self._end(k)
+            raise FileExistsError(17, 'Cannot create a file when that file already exists', src, 183, dst)
         if src != dst:
             del self.names[src]
             self.names[dst] = ent
@@ -724,8 +738,13 @@ class SimFS:
         self.inodes[ent[0]].barrier()
         self._end(k)
 
+    def op_rename(self, src, dst):
+        """os.rename: atomically replaces an existing destination on POSIX, refuses it on Windows."""
+        return self._move('rename', src, dst, overwrite=self.semantics != 'windows')
+
     def op_replace(self, src, dst):
-        return self.op_rename(src, dst)
+        """os.replace: atomic overwrite on every platform."""
+        return self._move('replace', src, dst, overwrite=True)
 
     def op_remove(self, path):
         path = self._path(path)
